@@ -191,4 +191,32 @@ theorem consecutiveCombinations_map (ρ : String → String) (labels : List Stri
     · simp only [List.map_cons, ih]; rfl
     · exact ih
 
+theorem addAt_map (ρ : String → String) (nan : String) : ∀ (n : Nat) (c : List (List String)),
+    addAt (ρ nan) n (renC ρ c) = renC ρ (addAt nan n c)
+  | _, [] => by simp [addAt, renC]
+  | 0, g :: t => by simp [addAt, renC]
+  | n + 1, g :: t => by
+    have := addAt_map ρ nan n t
+    simp only [renC] at this
+    simp [addAt, renC, this]
+
+theorem nanPlacements_map (ρ : String → String) (nan : String) (m : Nat) (c : List (List String)) :
+    nanPlacements (ρ nan) m (renC ρ c) = (nanPlacements nan m c).map (renC ρ) := by
+  unfold nanPlacements
+  have hl : (renC ρ c).length = c.length := by simp [renC]
+  rw [hl, List.map_append, List.map_map]
+  congr 1
+  · apply List.map_congr_left
+    intro n _
+    exact addAt_map ρ nan n c
+  · split <;> simp [renC]
+
+theorem nanCombinations_map (ρ : String → String) (leaders : List String) (nan : String) (m : Nat) :
+    nanCombinations (leaders.map ρ) (ρ nan) m = (nanCombinations leaders nan m).map (renC ρ) := by
+  unfold nanCombinations
+  rw [consecutiveCombinations_map, List.map_flatMap, List.flatMap_map]
+  apply flatMap_congr_mem
+  intro c _
+  exact nanPlacements_map ρ nan m c
+
 end RenameLemmas
